@@ -193,8 +193,25 @@ func (r *Rand) Weighted(w ...int) int {
 }
 
 // SW: weighted scenario choice among len(w) alternatives (index 0 = simplest).
+// Alternatives with weight 0 are not part of the choice at all: the tape cell
+// indexes the alternatives with a positive weight, so a shrunk or edited tape
+// can never select something the generator would never produce.
 func (t *Tape) SW(w ...int) int {
-	return t.SF(len(w), func(r *Rand) int { return r.Weighted(w...) })
+	idx, ww := positive(w)
+	return idx[t.SF(len(idx), func(r *Rand) int { return r.Weighted(ww...) })]
+}
+
+func positive(w []int) (idx, ww []int) {
+	for i, x := range w {
+		if x > 0 {
+			idx = append(idx, i)
+			ww = append(ww, x)
+		}
+	}
+	if len(idx) == 0 {
+		return []int{0}, []int{1}
+	}
+	return
 }
 
 // SBool: true with probability num/den in generation mode; 0 (false) is simplest.
@@ -217,5 +234,6 @@ func (t *Tape) SBytes(n int) []byte {
 }
 
 func (t *Tape) DW(w ...int) int {
-	return t.DF(len(w), func(r *Rand) int { return r.Weighted(w...) })
+	idx, ww := positive(w)
+	return idx[t.DF(len(idx), func(r *Rand) int { return r.Weighted(ww...) })]
 }
